@@ -289,6 +289,19 @@ def case_api(case):
                     if not (np.array_equal(c, cnt) and np.allclose(g, exp, rtol=1e-12, atol=1e-14)):
                         r.fail("vario_estimate(latlon, geo_scale) bins pairs by great-circle distance", {"values": g.tolist(), "counts": c.tolist()}, {"values": exp.tolist(), "counts": cnt.tolist()}, "", geo_scale=gsc, edges=list(edges_rad), estimator=e)
                     r.close("lat-lon bin centers in units of geo_scale", bc, (ed[1:] + ed[:-1]) / 2 * gsc, rtol=1e-14)
+            # only the cut-off length given (a great-circle distance in units of geo_scale): equally wide bins up to it
+            for md in (0.7, 2.5):
+                out = gs.vario_estimate(pos, f, latlon=True, geo_scale=gsc, max_dist=md * gsc, return_counts=True)
+                nb = len(out[0])
+                ed = np.linspace(0.0, md, nb + 1)
+                gap = np.abs(dist[:, None] - ed[None, :])
+                if np.any(gap < 1e-9):
+                    continue
+                exp, cnt = ov.unstructured(f[None, :], ed, dist, "m")
+                nsub += 1
+                r.close("max_dist given: bin centres == midpoints of equal bins up to max_dist", out[0], (ed[1:] + ed[:-1]) / 2 * gsc, rtol=1e-12, geo_scale=gsc, max_dist=md)
+                if not (np.array_equal(out[2], cnt) and np.allclose(out[1], exp, rtol=1e-12, atol=1e-14)):
+                    r.fail("max_dist given (lat-lon): estimate == pair enumeration over equal bins up to max_dist", {"values": np.asarray(out[1]).tolist(), "counts": np.asarray(out[2]).tolist()}, {"values": exp.tolist(), "counts": cnt.tolist()}, "", geo_scale=gsc, max_dist=md)
     else:
         dim, idx = case["dim"], case["points"]
         pos = np.ascontiguousarray(lattice(dim)[:, idx])
@@ -304,6 +317,13 @@ def case_api(case):
                         r.fail("vario_estimate == pair enumeration", {"values": g.tolist(), "counts": c.tolist()}, {"values": exp.tolist(), "counts": cnt.tolist()}, "", edges=list(edges), estimator=e, dim=dim)
                     g2 = gs.vario_estimate(pos, f, edges, estimator=name)[1]
                     r.close("return_counts=False gives the same values", g2, g, rtol=0, atol=0)
+                    # the estimator name is accepted in any capitalisation and means the same estimator
+                    for spell in (name.capitalize(), name.upper()):
+                        try:
+                            gsp = gs.vario_estimate(pos, f, edges, estimator=spell)[1]
+                        except ValueError:
+                            continue  # a refusal is fine, a different estimator is not
+                        r.close("estimator name in another capitalisation gives the same estimator", gsp, g, rtol=0, atol=0, estimator=spell)
         # every way the API lets values be missing, combined: two masked fields with different masks, a NaN,
         # a no_data value and an explicit mask on top
         if n >= 4:
